@@ -3,12 +3,15 @@
 Request:  scope compile <fuel> <program as one S-expression (coregen format + (fwd name))>
 Response: (root (cells …) (decls …))      -- same shape as the harness' dump of the real compiler, projected
           err <class> [<name>]
+Request:  scope run <depth|-> <calls|-> <rec|-> <tco 0|1> <fuel> <program>   -- compile, then run on the cell machine
+Response: as `core run`:  <outcome> ; out=|… ; <name>=<dump> ; … ; calls=<n>     (or `compile-err <class>`)
 Request:  scope resolve <fuel> <i> <cells of scope 0> | <cells of its parent> | …     cells: V R C<d>.<k>
 Response: <distance> <cell>  |  none
 Request:  scope thread <parentLen> <cells>
 Response: <specs> | <requests>
 -/
 import XrayModel.Scope
+import XrayModel.CellRun
 open XrayModel.Scope
 namespace XrayDriver.ScopeE
 
@@ -48,10 +51,11 @@ def parseSExp (toks : List String) : Option SExp :=
 
 mutual
   partial def toExpr : SExp → Option SExpr
-    | .list [.atom "i", _] => some .lit
-    | .list [.atom "b", _] => some .lit
-    | .list [.atom "s"] => some .lit
-    | .list [.atom "s", _] => some .lit
+    | .list [.atom "i", .atom n] => n.toInt?.map (fun n => SExpr.lit (.int n))
+    | .list [.atom "b", .atom "true"] => some (.lit (.bool true))
+    | .list [.atom "b", .atom "false"] => some (.lit (.bool false))
+    | .list [.atom "s"] => some (.lit (.str ""))
+    | .list [.atom "s", .atom w] => some (.lit (.str (w.replace "_" " ")))
     | .list [.atom "v", .atom x] => some (.ident x)
     | .list (.atom "c" :: .atom f :: args) => (args.mapM toExpr).map (SExpr.call (.ident f))
     | .list (.atom "ce" :: f :: args) => do
@@ -64,7 +68,7 @@ mutual
         let b ← toExpr body
         pure (.lam (.mk ps' ds' b))
     | .list (.atom "tup" :: es) => (es.mapM toExpr).map SExpr.tup
-    | .list (.atom "arr" :: es) => (es.mapM toExpr).map SExpr.tup
+    | .list (.atom "arr" :: es) => (es.mapM toExpr).map SExpr.arr
     | .list [.atom "item", e, .atom n] => do
         let e' ← toExpr e
         let i ← n.toNat?
@@ -94,13 +98,14 @@ def spaced (xs : List String) : String := String.join (xs.map (fun x => " " ++ x
 
 mutual
   partial def showXE : XE → String
-    | .lit => "lit"
+    | .lit _ => "lit"
     | .ident x => "(ident " ++ x ++ ")"
     | .lamF _ => "(lamF)"
     | .val i => s!"(val {i})"
     | .call f args => "(call " ++ showXE f ++ spaced (args.map showXE) ++ ")"
     | .bcall _ args => "(bcall" ++ spaced (args.map showXE) ++ ")"
     | .tup es => "(tup" ++ spaced (es.map showXE) ++ ")"
+    | .arr es => "(tup" ++ spaced (es.map showXE) ++ ")"
     | .member e i => "(member " ++ showXE e ++ s!" {i})"
   partial def showDecl : CDecl → String
     | .param c a => s!"(param {c} {a})"
@@ -134,6 +139,55 @@ def compileCmd (args : List String) : String :=
         | .ok root =>
           "(root (cells" ++ spaced (root.cells.map showCell) ++ ") (decls" ++ spaced (root.decls.map showDecl) ++ "))"
     | _, _ => "bad-op"
+  | _ => "bad-op"
+
+open XrayModel.CellRun in
+partial def dumpCVal : CVal → String
+  | .int n => s!"(int {n})"
+  | .bool b => s!"(bool {b})"
+  | .str s => "(str \"" ++ s ++ "\")"
+  | .tup vs => "(struct" ++ String.join (vs.map (fun v => " " ++ dumpCVal v)) ++ ")"
+  | .arr vs => "(seq" ++ String.join (vs.map (fun v => " " ++ dumpCVal v)) ++ ")"
+  | .fn _ => "(fn)"
+  | .err m => "(error \"" ++ m ++ "\")"
+
+def showViol : XrayModel.Core.Viol → String
+  | .depth => "MaximumStackDepth"
+  | .calls => "MaximumUDCall"
+  | .recursion => "MaximumRecursion"
+
+def optNat (s : String) : Option (Option Nat) :=
+  if s == "-" then some none else s.toNat?.map some
+
+def dedupNames : List (String × Nat) → List String → List String
+  | [], acc => acc
+  | (x, _) :: rest, acc => if acc.contains x then dedupNames rest acc else dedupNames rest (acc ++ [x])
+
+open XrayModel.CellRun in
+def runCmd (args : List String) : String :=
+  match args with
+  | d :: c :: r :: tco :: fuel :: rest =>
+    match optNat d, optNat c, optNat r, fuel.toNat?, parseSExp (tokenize (String.intercalate " " rest)) with
+    | some d', some c', some r', some fuel', some (.list (.atom "prog" :: ds)) =>
+      match ds.mapM toDecl with
+      | none => "bad-op"
+      | some decls =>
+        let cfg : XrayModel.Core.Cfg := { depthLimit := d', callLimit := c', recLimit := r', tco := tco != "0" }
+        match compileAndRun 200000 fuel' cfg decls with
+        | .error e => "compile-" ++ showErr e
+        | .ok (root, (res, st)) =>
+          let outs := "out=" ++ String.join (st.out.map (fun l => "|" ++ l))
+          match res with
+          | .ok fr =>
+            let names := dedupNames root.vars []
+            let binds := names.reverse.map (fun n => n ++ "=" ++ (match getValue root fr n with | some v => dumpCVal v | none => "!nonvalue"))
+            String.intercalate " ; " (["ok", outs] ++ binds) ++ s!" ; calls={st.calls}"
+          | .error (.viol k) => "viol:" ++ showViol k ++ " ; " ++ outs
+          | .error (.stuck w) => "stuck:" ++ w ++ " ; " ++ outs
+          | .error .oof => "oof ; " ++ outs
+          | .error (.val _) => "stuck:value-as-error ; " ++ outs
+          | .error (.tail _) => "stuck:tail-escaped ; " ++ outs
+    | _, _, _, _, _ => "bad-op"
   | _ => "bad-op"
 
 def parseCell (s : String) : Option Cell :=
@@ -189,6 +243,7 @@ namespace XrayDriver
 def scopeEngine (f : String) (args : List String) : String :=
   match f with
   | "compile" => ScopeE.compileCmd args
+  | "run" => ScopeE.runCmd args
   | "resolve" => ScopeE.resolveCmd args
   | "thread" => ScopeE.threadCmd args
   | _ => "bad-op"
